@@ -15,12 +15,6 @@ Fixpoint lasts (st : list unf) (k : key) : Prop :=
   | u :: r, c :: k' => (exists o, u_last u = Some (c, o)) /\ lasts r k'
   | _, _ => False
   end.
-(* sum of the pending outputs *)
-Fixpoint psum (st : list unf) : N :=
-  match st with
-  | [] => 0
-  | u :: r => match u_last u with Some (_, o) => o + psum r | None => 0 end
-  end.
 (* length of the common prefix of the last key and the new key *)
 Fixpoint cpl (k bs : key) : nat :=
   match k, bs with
@@ -92,6 +86,32 @@ Lemma map_cons_tr_addv p b o l : map (cons_tr b o) (map (addv p) l) = map (cons_
 Proof. rewrite map_map. apply map_ext. intros [k v]. unfold addv, cons_tr; cbn. f_equal. lia. Qed.
 Lemma map_addv_0 l : map (addv 0) l = l.
 Proof. rewrite <- (map_id l) at 2. apply map_ext. intros [k v]. unfold addv; cbn. f_equal. Qed.
+
+(* ---------- canonical-output predicates: decomposition ---------- *)
+Lemma Cpost_0 cl st tail v v' : Cpost cl st tail 0 v -> Cpost cl st tail 0 v'.
+Proof.
+  induction st as [|u st IH]; cbn [Cpost]; [auto|]. intros (H1 & H2). split; [exact H1|].
+  destruct (u_last u); [|exact I]. destruct H2; auto.
+Qed.
+
+Lemma Cpost_app cl lo : forall k X tail p v, lasts lo k -> (p <= length lo)%nat ->
+  (Cpost cl (lo ++ X) tail p v <-> Cpost cl lo (Lstk cl X tail) p v /\ Cpost cl X tail 0 v).
+Proof.
+  induction lo as [|u lo IH]; intros [|c k] X tail p v; cbn [lasts]; try tauto.
+  - intros _ Hp. cbn [length] in Hp. assert (p = 0%nat) by lia. subst p. cbn [app Cpost]. tauto.
+  - intros ((o & Ho) & Hl) Hp. cbn [app Cpost]. rewrite Ho, Lstk_app. destruct p as [|p'].
+    + rewrite (IH k X tail 0%nat v Hl) by lia. tauto.
+    + cbn [length] in Hp. rewrite (IH k X tail p' v Hl) by lia.
+      rewrite firstn_app. replace (p' - length lo)%nat with 0%nat by lia. cbn [firstn]. rewrite app_nil_r. tauto.
+Qed.
+
+Lemma has0_addv0 l : has0 (map (addv 0) l) <-> has0 l.
+Proof. rewrite map_addv_0. tauto. Qed.
+
+Lemma has0_app_l l1 l2 : has0 l1 -> has0 (l1 ++ l2).
+Proof. intros (k & H). exists k. apply in_or_app. auto. Qed.
+Lemma has0_app_r l1 l2 : has0 l2 -> has0 (l1 ++ l2).
+Proof. intros (k & H). exists k. apply in_or_app. auto. Qed.
 
 Section Stack.
 Variable E : store.
@@ -168,7 +188,21 @@ Proof.
   - cbn [last_opt]. auto.
 Qed.
 
+Lemma Fro_aop u p : Fro cl (u_node u) -> Fro cl (u_node (add_output_prefix u p)).
+Proof.
+  unfold Fro, add_output_prefix. cbn [u_node n_trans]. intros H t Ht. apply in_map_iff in Ht.
+  destruct Ht as (t0 & <- & Ht0). cbn [t_addr]. auto.
+Qed.
+
+Lemma Cstk_aop u p rest : Cstk cl (u :: rest) -> Cstk cl (add_output_prefix u p :: rest).
+Proof.
+  unfold Cstk. cbn [Cpost]. intros (H1 & H2). split; [apply Fro_aop; exact H1|].
+  unfold add_output_prefix at 1. cbn [u_last]. destruct (u_last u) as [[i o]|]; auto.
+Qed.
+
 (* ---------- find_common_prefix_and_set_output ---------- *)
+Definition finals (st : list unf) : list bool := map (fun u => n_final (u_node u)) st.
+
 Lemma fcp_ok : forall bs stack k out pre,
   shape stack k -> Forall (unf_ok E) stack -> W pre stack -> pre + out < U64 -> top_empty stack ->
   exists st o2,
@@ -176,17 +210,19 @@ Lemma fcp_ok : forall bs stack k out pre,
     shape st k /\ Forall (unf_ok E) st /\ W pre st /\ top_empty st /\
     Lstk cl st [] = Lstk cl stack [] /\
     (forall a, dom stack a -> dom st a) /\
-    psum (firstn (cpl k bs) st) + o2 = out.
+    psum (firstn (cpl k bs) st) + o2 = out /\
+    finals st = finals stack /\
+    (Cstk cl stack -> Cpost cl st [] (cpl k bs) o2).
 Proof.
   induction bs as [|b bs IH]; intros stack k out pre Hs Hu HW Hout Hte.
-  - exists stack, out. destruct k; cbn [fcp cpl firstn psum]; splits; auto.
+  - exists stack, out. destruct k; cbn [fcp cpl firstn psum]; splits; auto; try apply Cpost_0.
   - destruct stack as [|u rest]; [destruct Hs|]. cbn [fcp].
     destruct k as [|c k].
     { cbn [shape] in Hs. destruct Hs as (Hl & ->). rewrite Hl. exists [u], out.
-      cbn [cpl firstn psum]. splits; auto; try reflexivity. cbn [shape]. auto. }
+      cbn [cpl firstn psum]. splits; auto; try reflexivity; try (cbn [shape]; auto; fail); try apply Cpost_0. }
     cbn [shape] in Hs. destruct Hs as ((o & Ho) & Hs). rewrite Ho. cbn [cpl].
     destruct (N.eqb_spec c b) as [Heq|Hne].
-    2:{ exists (u :: rest), out. cbn [firstn psum]. splits; auto. cbn [shape]. eauto. }
+    2:{ exists (u :: rest), out. cbn [firstn psum]. splits; auto; try (cbn [shape]; eauto; fail); try apply Cpost_0. }
     subst c. destruct rest as [|r rr]; [destruct Hs|].
     set (common := N.min o out). set (addp := o - common). set (out' := out - common).
     inversion Hu as [|? ? Hu1 Hu2]; subst.
@@ -198,7 +234,9 @@ Proof.
         else match r :: rr with r0 :: rr0 => Ok (add_output_prefix r0 addp :: rr0) | [] => Panic end) = Ok (r' :: rr) /\
        shape (r' :: rr) k /\ Forall (unf_ok E) (r' :: rr) /\ W (pre + common) (r' :: rr) /\ top_empty (r' :: rr) /\
        Lstk cl (r' :: rr) [] = map (addv addp) (Lstk cl (r :: rr) []) /\
-       (forall a, dom (r :: rr) a -> dom (r' :: rr) a)).
+       (forall a, dom (r :: rr) a -> dom (r' :: rr) a) /\
+       finals (r' :: rr) = finals (r :: rr) /\
+       (Cstk cl (r :: rr) -> Cstk cl (r' :: rr))).
     { destruct (N.eqb_spec addp 0) as [Hz|Hnz].
       - exists r. assert (common = o) by (unfold addp, common in *; lia).
         rewrite Hz, map_addv_0. replace (pre + common) with (pre + o) by lia. splits; auto.
@@ -206,10 +244,11 @@ Proof.
         inversion Hu2; subst.
         split; [apply shape_aop; auto|]. split; [constructor; auto; apply unf_ok_aop; auto|].
         split; [apply (W_aop (pre + o)); auto; unfold addp, common; lia|].
-        split; [apply top_empty_aop; auto|]. split; [apply Lstk_aop|]. intros a; apply dom_aop. }
-    destruct Hrest as (r' & Hr & Hs' & Hu' & HW' & Hte'' & HL' & Hd').
+        split; [apply top_empty_aop; auto|]. split; [apply Lstk_aop|].
+        split; [intros a; apply dom_aop|]. split; [reflexivity|]. apply Cstk_aop. }
+    destruct Hrest as (r' & Hr & Hs' & Hu' & HW' & Hte'' & HL' & Hd' & Hfin' & HC').
     rewrite Hr. cbn [bind].
-    destruct (IH (r' :: rr) k out' (pre + common) Hs' Hu' HW') as (st & o2 & Hf & A1 & A2 & A3 & A4 & A5 & A6 & A7); auto.
+    destruct (IH (r' :: rr) k out' (pre + common) Hs' Hu' HW') as (st & o2 & Hf & A1 & A2 & A3 & A4 & A5 & A6 & A7 & A8 & A9); auto.
     { unfold out', common. lia. }
     fold common addp out'. rewrite Hf. cbn [bind].
     exists (mkUnf (u_node u) (Some (b, common)) :: st), o2.
@@ -223,7 +262,13 @@ Proof.
              f_equal. f_equal. unfold addp, common. lia. }
     split. { intros a. cbn [dom u_node u_last]. rewrite Ho. intros [H|(H1 & H2)]; [left; auto|right].
              split; [discriminate|]. auto. }
-    cbn [firstn psum u_last]. unfold out', common in *. lia.
+    split. { cbn [firstn psum u_last]. unfold out', common in *. lia. }
+    split. { unfold finals in *. cbn [map u_node]. rewrite A8, Hfin'. reflexivity. }
+    intros HC. unfold Cstk in HC. cbn [Cpost] in HC. rewrite Ho in HC. destruct HC as (HC1 & HC2 & HC3).
+    cbn [Cpost u_node u_last]. split; [exact HC1|]. split; [|apply A9, HC', HC3].
+    rewrite A5, HL'. destruct (N.eqb_spec addp 0) as [Hz|Hnz].
+    + left. rewrite Hz. apply has0_addv0. exact HC2.
+    + right. unfold out', addp, common in *. lia.
 Qed.
 End Stack.
 
@@ -401,3 +446,88 @@ Proof.
   - rewrite !app_length. cbn [length]. assert (length (suffix_nodes r) = S (length r)).
     { clear. induction r; cbn [suffix_nodes length]; auto. } lia.
 Qed.
+
+(* ---------- canonical outputs through compile_from and add_suffix ---------- *)
+Lemma Fro_unf_ext1 E E' u : ext1 E E' -> store_ok E' -> unf_ok E u ->
+  Fro (elang E) (u_node u) -> Fro (elang E') (u_node u).
+Proof.
+  intros He Hs (_ & H2 & _) HF t Ht. rewrite Forall_forall in H2.
+  rewrite (elang_ext1 E E'); auto. apply (H2 t Ht).
+Qed.
+
+Lemma Cpost_ext1 E E' st tail : ext1 E E' -> store_ok E' -> Forall (unf_ok E) st ->
+  forall p v, Cpost (elang E) st tail p v -> Cpost (elang E') st tail p v.
+Proof.
+  intros He Hs. induction st as [|u st IH]; intros Hu p v; cbn [Cpost]; [auto|].
+  inversion Hu as [|? ? Hu1 Hu2]; subst. intros (C1 & C2). split; [eapply Fro_unf_ext1; eauto|].
+  destruct (u_last u); [|exact I]. rewrite (Lstk_ext1 E E'); auto.
+  destruct p; destruct C2 as (C2 & C3); split; auto.
+Qed.
+
+Lemma pop_step_C E E' lo p t a' k L q v :
+  ext1 E E' -> store_ok E' ->
+  sinv E (lo ++ [p; t]) k L ->
+  elang E' a' = lang_node (elang E) (u_node t) ->
+  (q <= length lo)%nat ->
+  Cpost (elang E) (lo ++ [p; t]) [] q v ->
+  Cpost (elang E') (lo ++ [mkUnf (freeze p a') None]) [] q v.
+Proof.
+  intros He HE' [Hs Hu _ _ _] Hla' Hq HC.
+  destruct (shape_app_inv lo [p; t] k Hs) as (Hlo & Hpt); [discriminate|].
+  destruct (skipn (length lo) k) as [|c [|c2 k2]] eqn:Hk; cbn [shape] in Hpt.
+  { destruct Hpt as (_ & X); discriminate. }
+  2:{ destruct Hpt as (_ & _ & []). }
+  destruct Hpt as ((o & Hp) & Ht & _).
+  apply Forall_app in Hu. destruct Hu as (Hulo & Hupt).
+  inversion Hupt as [|? ? Hup _]; subst.
+  apply (Cpost_app _ lo _ _ _ _ _ Hlo Hq) in HC. destruct HC as (HC1 & HC2).
+  cbn [Cpost] in HC2. rewrite Hp, Ht in HC2. destruct HC2 as (HFp & Hh0 & HFt & _).
+  apply (Cpost_app _ lo _ _ _ _ _ Hlo Hq). split.
+  - assert (HL : Lstk (elang E') [mkUnf (freeze p a') None] [] = Lstk (elang E) [p; t] []).
+    { cbn [Lstk u_node u_last]. rewrite Hp, Ht. rewrite (lang_node_freeze _ p c o a' Hp).
+      rewrite (lang_node_unf_ext1 E E' p), Hla', !app_nil_r; auto. }
+    rewrite HL. apply (Cpost_ext1 E E'); auto.
+  - cbn [Cpost u_node u_last]. split; [|exact I].
+    intros x Hx. unfold freeze in Hx. rewrite Hp in Hx. cbn [n_trans] in Hx. apply in_app_or in Hx.
+    destruct Hx as [Hx|[<-|[]]].
+    + eapply Fro_unf_ext1; eauto.
+    + cbn [t_addr]. rewrite Hla'. cbn [Lstk] in Hh0. rewrite Ht, app_nil_r in Hh0. exact Hh0.
+Qed.
+
+Lemma Cstk_suffix cl r v : Cpost cl (suffix_nodes r) [] 0 v.
+Proof.
+  induction r as [|c r IH]; cbn [suffix_nodes Cpost u_node u_last].
+  - split; [|exact I]. intros t [].
+  - split; [intros t []|]. split; [|exact IH]. rewrite Lstk_suffix. exists r. left. reflexivity.
+Qed.
+
+Lemma Cpost_settle cl lo : forall k T v k' v', lasts lo k ->
+  Cpost cl lo T (length lo) v -> Cpost cl lo (T ++ [(k', v)]) 0 v'.
+Proof.
+  induction lo as [|u lo IH]; intros [|c k] T v k' v'; cbn [lasts]; try tauto.
+  intros ((o & Ho) & Hl). cbn [length Cpost]. rewrite Ho. intros (H1 & H2 & H3).
+  split; [exact H1|]. split; [|eapply IH; eauto].
+  rewrite (Lstk_snoc _ lo k _ _ _ Hl). destruct H2 as [H2|H2].
+  - apply has0_app_l. exact H2.
+  - apply has0_app_r. rewrite firstn_all in H2. rewrite H2. eexists. left. reflexivity.
+Qed.
+
+Lemma add_suffix_C cl lo k top b r o2 :
+  lasts lo k -> u_last top = None ->
+  Cpost cl (lo ++ [top]) [] (length lo) o2 ->
+  Cstk cl (lo ++ [mkUnf (u_node top) (Some (b, o2))] ++ suffix_nodes r).
+Proof.
+  intros Hlo Ht HC. apply (Cpost_app _ lo _ _ _ _ _ Hlo (le_n _)) in HC. destruct HC as (HC1 & HC2).
+  cbn [Cpost] in HC2. destruct HC2 as (HFt & _).
+  unfold Cstk. apply (Cpost_app _ lo _ _ _ _ _ Hlo (Nat.le_0_l _)). split.
+  - cbn [app Lstk u_node u_last]. rewrite Lstk_suffix. cbn [map].
+    change [cons_tr b o2 (r, 0)] with [(b :: r, o2 + 0)]. replace (o2 + 0) with o2 by lia.
+    cbn [Lstk] in HC1. rewrite Ht in HC1. rewrite app_nil_r in HC1.
+    eapply Cpost_settle; eauto.
+  - cbn [app Cpost u_node u_last]. split; [exact HFt|]. split; [|apply Cstk_suffix].
+    rewrite Lstk_suffix. exists r. left. reflexivity.
+Qed.
+
+(* the new top of the stack is the final node of the new key *)
+Lemma top_final_suffix (l : list unf) r : top_final (l ++ suffix_nodes r).
+Proof. intros u Hu. rewrite last_opt_app_suffix in Hu. inversion Hu. right. reflexivity. Qed.
